@@ -210,12 +210,15 @@ func runFree(p *freeProgram) (f *Failure, stats map[string]int) {
 			if o.Err != nil {
 				stats["resolve-disposed"]++
 				_, registered := x.M.Owner(o.Ident)
-				if (registered || o.Ident.Group != "") && !kit.IsDisposed(o.Err) {
+				if (registered || o.Ident.Group != "") && !kit.IsDisposed(o.Err) && !x.M.NilOutput(o.Ident) {
 					return fail("C09", "documented-error", "free/"+kit.Classify(o.Err), "get(s%d,%s) failed with %v: neither a result nor a disposed error", o.Scope, o.Ident, firstLine(o.Err)), stats
 				}
 			} else {
 				stats["resolve-ok"]++
 				for _, e := range o.Entries {
+					if e == nil && x.M.NilOutput(o.Ident) {
+						continue
+					}
 					if e == nil || (e.Inv != nil && (e.Inv.Outcome != 1 || e.BornSeq == 0)) {
 						return fail("C09", "complete-result", "free", "get(s%d,%s) returned an incomplete value %v", o.Scope, o.Ident, e), stats
 					}
